@@ -296,3 +296,20 @@ func TestC04TCP(t *testing.T) {
 		return st.Labels["tcp:allocate"] >= 2 && st.Labels["tcp:connect-success"]+st.Labels["tcp:inbound-announced"] >= 2
 	})
 }
+
+// TestC02TCP: inbound peer connections are announced only for permitted senders, only to the owner.
+func TestC02TCP(t *testing.T) {
+	runTCPProp(t, "C02", false, func(st *Stats) bool {
+		return has(st, "tcp:inbound-without-permission") && has(st, "tcp:inbound-announced")
+	})
+}
+
+// TestC15TCP: TCP allocations release listeners and peer/data connections on every teardown, and
+// the bubble drains after the server is closed.
+func TestC15TCP(t *testing.T) {
+	runTCPProp(t, "C15", false, func(st *Stats) bool {
+		td := has(st, "teardown:expiry") || has(st, "teardown:refresh-zero") || has(st, "teardown:control-connection-close")
+
+		return td && (has(st, "tcp:connect-success") || has(st, "tcp:inbound-announced"))
+	})
+}
